@@ -1576,3 +1576,44 @@ func forwardTarget(fn *ssa.Function) *ssa.Function {
 	}
 	return only.Call.StaticCallee()
 }
+
+// eachInstrDeep visits the instructions of fn and of the helpers it calls (isHelperOf, depth <= 2). site is the
+// instruction in fn through which the visited one happens (itself, or the outermost helper call); tr maps a helper
+// parameter to the argument it is bound to in fn (other values unchanged).
+func eachInstrDeep(fn *ssa.Function, f func(in, site ssa.Instruction, tr func(ssa.Value) ssa.Value)) {
+	var rec func(cur *ssa.Function, site ssa.Instruction, subst map[ssa.Value]ssa.Value, depth int)
+	rec = func(cur *ssa.Function, site ssa.Instruction, subst map[ssa.Value]ssa.Value, depth int) {
+		tr := func(v ssa.Value) ssa.Value {
+			if v == nil {
+				return nil
+			}
+			if r, ok := subst[stripConv(v)]; ok {
+				return r
+			}
+			return v
+		}
+		eachInstr(cur, func(in ssa.Instruction) {
+			s := site
+			if s == nil {
+				s = in
+			}
+			f(in, s, tr)
+			call, ok := in.(*ssa.Call)
+			if !ok || depth >= 2 {
+				return
+			}
+			callee := call.Call.StaticCallee()
+			if !isHelperOf(fn, callee) {
+				return
+			}
+			ns := map[ssa.Value]ssa.Value{}
+			for i, prm := range callee.Params {
+				if i < len(call.Call.Args) {
+					ns[prm] = tr(call.Call.Args[i])
+				}
+			}
+			rec(callee, s, ns, depth+1)
+		})
+	}
+	rec(fn, nil, map[ssa.Value]ssa.Value{}, 0)
+}
